@@ -133,3 +133,46 @@ func (m *Machine) lineSource(r Iface) (*Value, *types.Struct) {
 	}
 	panic(abort(fmt.Sprintf("unmodelled io.Reader %v", r.t)))
 }
+
+// ---------- progress bar (opaque; arbitrary state) ----------
+
+func registerBar(e *Engine) {
+	in := e.intrinsics
+	const P = "(*github.com/schollz/progressbar/v3.ProgressBar)."
+	in[mainPath+".verifBar"] = func(m *Machine, fr *frame, a []Value) Value {
+		return &Opaque{kind: "bar", data: constArg(a[0], "verifBar")}
+	}
+	fresh := func(m *Machine, what string) Num {
+		m.atomSeq++
+		t := TVar(fmt.Sprintf("bar.%s!%d", what, m.atomSeq), SInt)
+		return Num{t: t}
+	}
+	in[P+"State"] = func(m *Machine, fr *frame, a []Value) Value {
+		o, _ := a[0].(*Opaque)
+		if o == nil {
+			panic(targetPanic{runtime: "invalid memory address or nil pointer dereference (nil *ProgressBar)"})
+		}
+		st := zero(e.namedType("github.com/schollz/progressbar/v3", "State")).(Struct)
+		stt := e.namedType("github.com/schollz/progressbar/v3", "State").Underlying().(*types.Struct)
+		st[fieldIndex(stt, "CurrentNum")] = fresh(m, "cur")
+		return st
+	}
+	in[P+"GetMax64"] = func(m *Machine, fr *frame, a []Value) Value {
+		if o, _ := a[0].(*Opaque); o == nil {
+			panic(targetPanic{runtime: "invalid memory address or nil pointer dereference (nil *ProgressBar)"})
+		}
+		return fresh(m, "max")
+	}
+	in[P+"Add"] = func(m *Machine, fr *frame, a []Value) Value {
+		if o, _ := a[0].(*Opaque); o == nil {
+			panic(targetPanic{runtime: "invalid memory address or nil pointer dereference (nil *ProgressBar)"})
+		}
+		m.events = append(m.events, Event{Kind: "bar.Add"})
+		if m.choose(2, nil) == 1 {
+			return m.newError(mkStr("progress bar error"))
+		}
+		return Iface{}
+	}
+}
+
+func init() { extraHarness = append(extraHarness, registerBar) }
